@@ -498,7 +498,9 @@ func editedPair(r *hx.Rand, d string) (*schema.Schema, *schema.Schema) {
 	return from, to
 }
 
-func kindOf(c schema.Change) string { return strings.TrimPrefix(reflect.TypeOf(c).String(), "*schema.") }
+func kindOf(c schema.Change) string {
+	return strings.TrimPrefix(reflect.TypeOf(c).String(), "*schema.")
+}
 
 // flatLeaves: every change at every nesting level as "path/kind:object".
 func flatLeaves(cs []schema.Change, prefix string, skipped map[string]bool, filter bool, out *[]string, found *[]string) {
